@@ -408,6 +408,33 @@ def fam_cli(tier):
         yield {'w': 'cli', 'argvs': batch[i:i + 40], 'variants': BOTH if (i // 40) % 4 == 0 else SAN}
 
 
+NUMS = ['2147483647', '2147483648', '4294967295', '4294967296', '4294967297', '9223372036854775807', '9223372036854775808',
+        '18446744073709551615', '18446744073709551616', '-2147483648', '-2147483649', '-9223372036854775808', '-9223372036854775809',
+        '4294967296A', '9223372036854775807H', '00000000000000000001', '+1', '0x10', '1e3', ' 1', '1 ', '255', '256', '65535', '65536', '1023', '1024']
+
+
+def fam_numbers(tier):
+    """every place a number is parsed (--drive N / --drive=N before and after --file, drive arguments of cat/free/space/sector-map/show-titles/extract-*, the three dump-sector arguments, :N. prefixes) x 27 boundary spellings around 2^8, 2^10, 2^16, 2^31, 2^32, 2^63, 2^64 with signs, suffixes and blanks"""
+    batch = []
+    for cfg in (['--file', 'v.ssd'], ['--file', 'o.sdd'], []):
+        for n in NUMS:
+            for cmd in (['cat'], ['info', '*'], ['extract-unused', 'out']):
+                batch.append(cfg + ['--drive', n] + cmd)
+                batch.append(['--drive=' + n] + cfg + cmd)
+                batch.append(['--drive', n, '--verbose'] + cfg + cmd)
+            for cmd in ('cat', 'free', 'space', 'sector-map', 'show-titles'):
+                batch.append(cfg + [cmd, n])
+            for k in range(3):
+                a = ['0', '0', '0']
+                a[k] = n
+                batch.append(cfg + ['dump-sector'] + a)
+            for cmd in ('type', 'info', 'dump', 'list'):
+                batch.append(cfg + [cmd, ':%s.$.HELLO' % n])
+                batch.append(cfg + [cmd, ':%s' % n])
+    for i in range(0, len(batch), 40):
+        yield {'w': 'cli', 'argvs': batch[i:i + 40], 'variants': BOTH if (i // 40) % 4 == 0 else SAN}
+
+
 def flux_structure_image(case):
     """a small flux image whose track 1 has one structurally odd sector (all CRCs valid)"""
     cont, spt = case['container'], case['spt']
@@ -489,7 +516,7 @@ def worker(case):
     return {'file': w_file, 'cli': w_cli, 'fluxstruct': w_fluxstruct}[case['w']](case)
 
 
-FAMILIES = [('F-flux-structure', fam_fluxstruct), ('X-cross-extension', fam_cross), ('C-command-lines', fam_cli), ('S-short-files', fam_short),
+FAMILIES = [('N-number-parsing-boundaries', fam_numbers), ('F-flux-structure', fam_fluxstruct), ('X-cross-extension', fam_cross), ('C-command-lines', fam_cli), ('S-short-files', fam_short),
             ('T-truncation', fam_trunc), ('B-structural-bytes', fam_poke)]
 
 
